@@ -401,10 +401,11 @@ def take_rule(ctx):
     b = fn_by_label(f, '<de::read::ReaderRead as de::read::take::Take>::take')
     if b is not None:
         ctx.touched(b)
-        tk = [(bb, t) for bb, t in b.calls() if (t.get('callee') or '') == 'std::io::Read::take']
+        # (the call may sit in a closure handed to a small mapping helper: captured values resolve to the parent's)
+        tk = [(x, bb, t) for x in [b] + f.closures_of(b) for bb, t in x.calls() if (t.get('callee') or '') == 'std::io::Read::take']
         ok = len(tk) == 1
         if ok:
-            o = origin(b, tk[0][1]['args'][1])
+            o = origin(tk[0][0], tk[0][2]['args'][1])
             ok = o.params() == {2} and 'try_into' in o.flags and 'try' in o.flags and not o.has_arith()
         ctx.ob('TAKE', 'ReaderRead::take', ok, short_loc(b.span), 'reader limited with io::Take(block_size via checked conversion): %s' % ok)
     else:
